@@ -191,6 +191,15 @@ def run_case(c, rng):
     except Exception as e:
         c.violate('model_build_failed', 'building the model raised %s: %s' % (type(e).__name__, e), traceback=traceback.format_exc()[-1200:], **wit)
         return
+    # a sizing edit after the controls exist: a cylindrical tank that level controls look at gets another diameter (every fifth case)
+    if c.index % 5 == 2:
+        watched = set(cs['source'] for cs in spec['controls'] if cs['kind'] == 'cond' and cs.get('sattr') == 'level')
+        for t_ in spec['tanks']:
+            if t_['name'] in watched and not t_.get('vol_curve'):
+                t_['diameter'] = gnet._round(t_['diameter'] * rng.choice([0.5, 1.6, 2.0, 3.0]), 4)
+                wn.get_node(t_['name']).diameter = t_['diameter']
+                wn.reset_initial_values()
+                c.count('tanks_resized_after_their_controls_were_made')
     tr = simobs.run_wntr(wn, deep=True)      # deep: the hook also records the user (control-commanded) status of every link per solved instant
     if tr.exception is not None:
         c.inconclusive('sim_failed: %s' % type(tr.exception).__name__)
